@@ -326,6 +326,34 @@ Section ABFProofs.
         destruct (IH _ _ Hk) as (H1 & H2). split; auto. cbn [samples_of]. now rewrite app_nil_r.
   Qed.
 
+  Lemma h_run_length : forall (es : list (ev (A:=A))) h, length (h_run es h) = length h.
+  Proof.
+    induction es as [|e tl IH]; intros h; [reflexivity|].
+    cbn [h_run fold_left]. fold (h_run tl (h_apply h e)). rewrite IH.
+    destruct e as [w i a|t|w t]; cbn [h_apply]; auto.
+    - revert w. induction h as [|x l IHl]; intros [|k]; cbn [upd_nth length]; auto.
+    - apply map_length.
+  Qed.
+
+  Lemma union_shared_fed : forall (h : hist (A:=A)) f k0 j,
+    (forall k su, nth_error h k = Some su -> fst su = f (k0 + k)%nat) ->
+    union_shared G h j = fed_from G (length h) k0 f j.
+  Proof.
+    induction h as [|su tl IH]; intros f k0 j Hf; [reflexivity|].
+    cbn [union_shared length fed_from]. f_equal.
+    - rewrite (Hf 0%nat su eq_refl). now rewrite Nat.add_0_r.
+    - apply IH. intros k su' Hk. rewrite (Hf (S k) su' Hk). f_equal. lia.
+  Qed.
+
+  Theorem union_shared_is_fed : forall n (es : list (ev (A:=A))) j,
+    union_shared G (h_run es (h_init n)) j = fed_union G n es j.
+  Proof.
+    intros n es j. unfold fed_union.
+    replace n with (length (h_run es (h_init n))) at 2.
+    - apply union_shared_fed. intros k su Hk. cbn [Nat.add]. now destruct (hist_is_fed _ _ _ _ Hk).
+    - rewrite h_run_length. unfold h_init. apply repeat_length.
+  Qed.
+
   (* the walker's own samples are recoverable at any time: local + (global - last) *)
   Theorem abf_local_recoverable : forall n es k w,
     nth_error (run G false es (init G n)) k = Some w ->
@@ -398,3 +426,443 @@ Lemma abf_new_witness_ok :
   exists w, nth_error (run Zgrp false abf_old_witness (init Zgrp 2)) 1 = Some w /\
     wG w 0 = union_shared Zgrp (h_run abf_old_witness (h_init 2)) 0 /\ wG w 0 = 1.
 Proof. eexists. split; [reflexivity|]. vm_compute. auto. Qed.
+
+(* ---- the statements of Properties_C14.v (shared ABF) *)
+Lemma abf_union_once_fed : forall (A : Type) (G : GrpOps A), GrpLaws G ->
+  forall (n : nat) (es : list (ev (A:=A))) (t : Z) (k : nat) (w : walker (A:=A)),
+  nth_error (run G false (es ++ [EExchange t]) (init G n)) k = Some w ->
+  forall i, wG w i = fed_union G n (es ++ [EExchange t]) i /\ wL w i = fed_union G n (es ++ [EExchange t]) i.
+Proof.
+  intros A G HL n es t k w Hk i. rewrite <- (union_shared_is_fed G). apply (abf_union_once G HL _ _ _ _ _ Hk).
+Qed.
+
+Lemma abf_state_any_time : forall (A : Type) (G : GrpOps A), GrpLaws G ->
+  forall (n : nat) (es : list (ev (A:=A))) (k : nat) (w : walker (A:=A)),
+  nth_error (run G false es (init G n)) k = Some w ->
+  exists su, nth_error (h_run es (h_init n)) k = Some su /\
+    fst su = samples_of k (upto_last_exchange es) /\ fst su ++ snd su = samples_of k es /\
+    forall i, wL w i = fed_union G n es i /\
+              wG w i = gadd G (fed_union G n es i) (gsum G (snd su) i) /\
+              wLoc w i = gsum G (fst su) i.
+Proof.
+  intros A G HL n es k w Hk. destruct (abf_state G HL _ _ _ _ Hk) as (su & Hsu & Hw).
+  exists su. destruct (hist_is_fed _ _ _ _ Hsu) as (F1 & F2).
+  split; [auto|]. split; [auto|]. split; [auto|]. intros i. destruct (Hw i) as (H1 & H2 & H3).
+  rewrite <- (union_shared_is_fed G). auto.
+Qed.
+
+Lemma abf_exchange_points_agree : forall (A : Type) (G : GrpOps A) freq t t' (ws : list (walker (A:=A))) w w',
+  In w (exchange G t ws) -> In w' (exchange G t ws) -> share_due freq t' w = share_due freq t' w'.
+Proof.
+  intros A G freq t t' ws w w' Hw Hw'. apply share_due_agree.
+  rewrite (exchange_sets_last G _ _ _ Hw), (exchange_sets_last G _ _ _ Hw'). reflexivity.
+Qed.
+
+(* ------------------------------------------------------------------------------------------- *)
+(* (b) file-based multiple-walker metadynamics                                                  *)
+(* ------------------------------------------------------------------------------------------- *)
+
+Definition prefix (l1 l2 : list hill) : Prop := exists rest, l2 = l1 ++ rest.
+
+Lemma prefix_refl : forall l, prefix l l.
+Proof. intros l. exists []. now rewrite app_nil_r. Qed.
+
+Lemma prefix_trans : forall a b c, prefix a b -> prefix b c -> prefix a c.
+Proof. intros a b c [r1 ->] [r2 ->]. exists (r1 ++ r2). now rewrite app_assoc. Qed.
+
+Lemma prefix_app : forall a b, prefix a (a ++ b).
+Proof. intros a b. now exists b. Qed.
+
+Lemma prefix_app_l : forall a b c, prefix b c -> prefix (a ++ b) (a ++ c).
+Proof. intros a b c [r ->]. exists r. now rewrite app_assoc. Qed.
+
+Lemma hill_eqb_eq : forall a b, hill_eqb a b = true <-> a = b.
+Proof.
+  intros [i p] [j q]. unfold hill_eqb; cbn [hit hpay]. rewrite andb_true_iff, !Z.eqb_eq. split.
+  - intros [-> ->]. reflexivity.
+  - intros H. injection H as -> ->. auto.
+Qed.
+
+Lemma prefixb_spec : forall l1 l2, prefixb l1 l2 = true <-> prefix l1 l2.
+Proof.
+  induction l1 as [|a t1 IH]; intros l2.
+  - cbn [prefixb]. split; auto. intros _. now exists l2.
+  - destruct l2 as [|b t2]; cbn [prefixb].
+    + split; [discriminate|]. intros [r H]. discriminate.
+    + rewrite andb_true_iff, hill_eqb_eq, IH. split.
+      * intros [-> [r ->]]. now exists r.
+      * intros [r H]. cbn [app] in H. injection H as -> ->. split; auto. now exists r.
+Qed.
+
+Lemma firstn_plus : forall {X} (n m : nat) (l : list X), firstn (n + m) l = firstn n l ++ firstn m (skipn n l).
+Proof.
+  intros X n. induction n as [|k IH]; intros m l; [reflexivity|].
+  destruct l as [|x tl]; cbn [Nat.add firstn skipn app].
+  - now rewrite firstn_nil.
+  - now rewrite IH.
+Qed.
+
+Lemma firstn_sub : forall l a b, 0 <= a <= b -> firstn (Z.to_nat a) l ++ sub l a b = firstn (Z.to_nat b) l.
+Proof.
+  intros l a b H. unfold sub. rewrite <- firstn_plus. f_equal. lia.
+Qed.
+
+Lemma firstn_prefix_le : forall (l : list hill) n m, (n <= m)%nat -> prefix (firstn n l) (firstn m l).
+Proof.
+  intros l n m H. replace m with (n + (m - n))%nat by lia. rewrite firstn_plus. apply prefix_app.
+Qed.
+
+Lemma firstn_prefix : forall (l : list hill) n, prefix (firstn n l) l.
+Proof. intros l n. exists (skipn n l). symmetry. apply firstn_skipn. Qed.
+
+Lemma Forall_firstn_ : forall {X} (P : X -> Prop) n l, Forall P l -> Forall P (firstn n l).
+Proof.
+  intros X P n. induction n as [|k IH]; intros l H; [constructor|].
+  destruct H as [|x tl Hx Ht]; cbn [firstn]; constructor; auto.
+Qed.
+
+Lemma Forall_skipn_ : forall {X} (P : X -> Prop) n l, Forall P l -> Forall P (skipn n l).
+Proof.
+  intros X P n. induction n as [|k IH]; intros l H; [exact H|].
+  destruct H as [|x tl Hx Ht]; cbn [skipn]; auto.
+Qed.
+
+Lemma filter_keep_all : forall s l, Forall (fun h => s < hit h) l -> filter (keep s) l = l.
+Proof.
+  intros s l H. induction H as [|h tl Hh _ IH]; [reflexivity|].
+  cbn [filter]. unfold keep at 1. destruct (Z.ltb_spec s (hit h)); [now rewrite IH|lia].
+Qed.
+
+(* ---- invariants *)
+Definition WInv (w : writer) : Prop :=
+  w_D w = sf_hills (w_state w) ++ w_file w /\
+  Forall (fun h => sf_step (w_state w) < hit h) (w_file w) /\
+  0 <= w_vis w <= Z.of_nat (length (w_file w)).
+
+Definition current (w : writer) (m : mirror) : Prop :=
+  m_name m = Some (w_name w) /\ m_S m = sf_step (w_state w).
+
+Definition MInv (w : writer) (om : option mirror) : Prop :=
+  match om with
+  | None => True
+  | Some m =>
+      m_has m = true /\
+      (forall k, m_name m = Some k -> k <= w_name w) /\
+      (m_name m = Some (w_name w) -> m_S m <= sf_step (w_state w)) /\
+      (current w m -> m_cont m = sf_hills (w_state w) ++ firstn (Z.to_nat (m_pos m)) (w_file w) /\
+                      0 <= m_pos m <= Z.of_nat (length (w_file w))) /\
+      (~ current w m -> prefix (m_cont m) (sf_hills (w_state w)))
+  end.
+
+Definition pinv (st : pstate) : Prop := WInv (fst st) /\ MInv (fst st) (snd st).
+
+Lemma current_dec : forall w m, current w m \/ ~ current w m.
+Proof.
+  intros w m. unfold current. destruct (m_name m) as [k|].
+  - destruct (Z.eq_dec k (w_name w)) as [->|Hk]; destruct (Z.eq_dec (m_S m) (sf_step (w_state w))) as [HS|HS].
+    + left; auto.
+    + right; intros [_ H]; auto.
+    + right; intros [H _]; congruence.
+    + right; intros [H _]; congruence.
+  - right. intros [H _]. discriminate.
+Qed.
+
+Lemma pinv_init : pinv pinit.
+Proof.
+  unfold pinv, pinit, WInv, wr_init; cbn. repeat split; auto; try lia.
+Qed.
+
+Lemma forallb_le : forall s l, forallb (fun x => hit x <=? s) l = true -> Forall (fun x => hit x <= s) l.
+Proof.
+  intros s l H. apply Forall_forall. intros x Hx. rewrite forallb_forall in H.
+  specialize (H x Hx). lia.
+Qed.
+
+(* a state file written at the same step as the one in place: nothing was deposited in between *)
+Lemma same_step_file_empty : forall w s, WInv w -> sf_step (w_state w) = s ->
+  Forall (fun x => hit x <= s) (w_D w) -> w_file w = [].
+Proof.
+  intros w s (HD & HF & _) Hs Hle. rewrite HD in Hle. apply Forall_app in Hle. destruct Hle as [_ Hle].
+  destruct (w_file w) as [|h tl]; auto.
+  inversion HF as [|? ? H1 _]; inversion Hle as [|? ? H2 _]; subst. lia.
+Qed.
+
+(* writer events that replace the state file (and restart the hills file) *)
+Lemma MInv_newstate : forall w m s nn, WInv w -> MInv w (Some m) ->
+  sf_step (w_state w) <= s -> Forall (fun x => hit x <= s) (w_D w) ->
+  MInv (wr_setup w s nn) (Some m) /\ MInv (wr_state w s) (Some m).
+Proof.
+  intros w m s nn HW (Hhas & Hk & HSle & Hcur & Hnc) Hs Hle.
+  assert (Hcommon : forall w', w_D w' = w_D w -> w_state w' = mkSF s (w_D w) -> w_file w' = [] ->
+            (w_name w' = w_name w \/ w_name w' = w_name w + 1) ->
+            MInv w' (Some m)).
+  { intros w' HD' Hst' Hf' Hn'. unfold MInv.
+    (* a mirror that is current for the new state file was current for the old one, written at the same step *)
+    assert (Hsame : current w' m -> current w m /\ w_file w = []).
+    { intros [Hn HS]. rewrite Hst' in HS; cbn [sf_step] in HS.
+      destruct Hn' as [Hn'|Hn']; [|specialize (Hk _ Hn); lia].
+      rewrite Hn' in Hn. specialize (HSle Hn).
+      assert (E : sf_step (w_state w) = s) by lia.
+      split; [split; auto; lia|]. apply (same_step_file_empty w s HW E Hle). }
+    split; [auto|]. split; [|split; [|split]].
+    - intros k Hkk. specialize (Hk k Hkk). destruct Hn' as [-> | ->]; lia.
+    - intros Hname. rewrite Hst'; cbn [sf_step]. destruct Hn' as [Hn'|Hn'].
+      + rewrite Hn' in Hname. specialize (HSle Hname). lia.
+      + specialize (Hk _ Hname). lia.
+    - intros Hc'. destruct (Hsame Hc') as (Hc & Hfe). destruct (Hcur Hc) as (Hcont & Hp).
+      rewrite Hst', Hf'; cbn [sf_hills length]. rewrite firstn_nil, app_nil_r.
+      rewrite Hfe in Hp, Hcont. cbn [length] in Hp. rewrite firstn_nil, app_nil_r in Hcont.
+      destruct HW as (HD & _). rewrite HD, Hfe, app_nil_r. split; auto.
+    - intros Hnc'. rewrite Hst'; cbn [sf_hills]. destruct HW as (HD & _).
+      destruct (current_dec w m) as [Hc|Hc].
+      + destruct (Hcur Hc) as (Hcont & _). rewrite Hcont, HD. apply prefix_app_l. apply firstn_prefix.
+      + specialize (Hnc Hc). rewrite HD. eapply prefix_trans; [exact Hnc|]. apply prefix_app. }
+  split; apply Hcommon; cbn; auto. destruct nn; auto.
+Qed.
+
+Lemma WInv_newstate : forall w s nn, WInv w -> WInv (wr_setup w s nn) /\ WInv (wr_state w s).
+Proof.
+  intros w s nn _. unfold WInv, wr_setup, wr_state; cbn. rewrite app_nil_r. repeat split; auto; lia.
+Qed.
+
+(* one replica_share() of the reader (both repairs in place) *)
+Lemma share_spec : forall w om, WInv w -> MInv w om -> w_reg w = true ->
+  exists m, share true true w om = Some m /\
+    current w m /\ m_has m = true /\ m_sync m = true /\
+    m_cont m = sf_hills (w_state w) ++ firstn (Z.to_nat (m_pos m)) (w_file w) /\
+    w_vis w <= m_pos m <= Z.of_nat (length (w_file w)).
+Proof.
+  intros w om (HD & HF & Hv) HM Hreg.
+  unfold share. rewrite Hreg. cbn [negb].
+  set (m0 := match om with None => m_new | Some m => m end).
+  set (m1 := if name_is (m_name m0) (w_name w) then m0
+             else mkM (Some (w_name w)) false (m_has m0) (m_pos m0) (m_S m0) (m_cont m0)).
+  set (m2 := if true && m_has m1 && m_sync m1 && negb (sf_step (w_state w) =? m_S m1)
+             then mkM (m_name m1) false (m_has m1) (m_pos m1) (m_S m1) (m_cont m1) else m1).
+  set (m3 := if negb (m_has m2) || negb (m_sync m2)
+             then mkM (m_name m2) true true 0 (sf_step (w_state w)) (sf_hills (w_state w)) else m2).
+  (* m3 is a current mirror that holds the state file and the first m_pos records *)
+  assert (H3 : current w m3 /\ m_has m3 = true /\ m_sync m3 = true /\
+               m_cont m3 = sf_hills (w_state w) ++ firstn (Z.to_nat (m_pos m3)) (w_file w) /\
+               0 <= m_pos m3 <= Z.of_nat (length (w_file w))).
+  { assert (Hn1 : m_name m1 = Some (w_name w)).
+    { unfold m1. destruct (name_is (m_name m0) (w_name w)) eqn:E; cbn [m_name]; auto.
+      unfold name_is in E. destruct (m_name m0) as [k|]; [|discriminate]. apply Z.eqb_eq in E. now subst. }
+    assert (Hn2 : m_name m2 = Some (w_name w)).
+    { unfold m2. destruct (true && m_has m1 && m_sync m1 && negb (sf_step (w_state w) =? m_S m1)); auto. }
+    destruct (negb (m_has m2) || negb (m_sync m2)) eqn:Ere.
+    - (* the state file is (re)read *)
+      unfold m3. try rewrite Ere. cbn [m_name m_has m_sync m_pos m_cont m_S]. unfold current; cbn [m_name m_S].
+      rewrite firstn_O, app_nil_r. repeat split; auto; lia.
+    - (* not reread: the mirror was current and in sync *)
+      unfold m3. try rewrite Ere. apply orb_false_elim in Ere. destruct Ere as [Eh Es].
+      apply negb_false_iff in Eh. apply negb_false_iff in Es.
+      assert (E21 : m2 = m1 /\ (sf_step (w_state w) =? m_S m1) = true).
+      { unfold m2 in *. destruct (true && m_has m1 && m_sync m1 && negb (sf_step (w_state w) =? m_S m1)) eqn:E.
+        - cbn [m_sync] in Es. discriminate.
+        - split; auto. cbn [andb] in E. rewrite Eh, Es in E. cbn [andb] in E. now apply negb_false_iff in E. }
+      destruct E21 as [E21 ES]. rewrite E21 in *. apply Z.eqb_eq in ES.
+      assert (E10 : m1 = m0).
+      { unfold m1 in *. destruct (name_is (m_name m0) (w_name w)); auto. cbn [m_sync] in Es. discriminate. }
+      rewrite E10 in *. destruct om as [m|].
+      + subst m0. destruct HM as (Hhas & Hk & HSle & Hcur & Hnc).
+        assert (Hc : current w m) by (split; auto).
+        destruct (Hcur Hc) as (Hcont & Hp). repeat split; auto; lia.
+      + subst m0. cbn in Eh. discriminate. }
+  destruct H3 as (Hc3 & Hh3 & Hs3 & Hcont3 & Hp3).
+  destruct (Z.leb_spec (m_pos m3) (w_vis w)) as [Hle|Hgt].
+  - eexists. split; [reflexivity|]. cbn [m_name m_has m_sync m_pos m_cont m_S].
+    split; [exact Hc3|]. repeat split; auto; try lia.
+    rewrite Hcont3, <- app_assoc. f_equal.
+    rewrite filter_keep_all.
+    + apply firstn_sub. lia.
+    + destruct Hc3 as [_ ->]. unfold sub. apply Forall_firstn_, Forall_skipn_. exact HF.
+  - exists m3. repeat split; auto; try lia; apply Hc3.
+Qed.
+
+Lemma MInv_of_share : forall w m, WInv w -> w_reg w = true ->
+  current w m -> m_has m = true ->
+  m_cont m = sf_hills (w_state w) ++ firstn (Z.to_nat (m_pos m)) (w_file w) ->
+  0 <= m_pos m <= Z.of_nat (length (w_file w)) -> MInv w (Some m).
+Proof.
+  intros w m HW Hreg Hc Hh Hcont Hp. unfold MInv. destruct Hc as [Hn HS].
+  repeat split; auto; try lia.
+  - intros k Hk. rewrite Hn in Hk. injection Hk as <-. lia.
+  - intros Hnc. exfalso. apply Hnc. split; auto.
+Qed.
+
+Lemma MInv_deposit : forall w om h, MInv w om -> MInv (wr_deposit w h) om.
+Proof.
+  intros w [m|] h H; [|exact I]. destruct H as (Hhas & Hk & HSle & Hcur & Hnc).
+  unfold MInv, wr_deposit, current in *; cbn [w_name w_state w_file] in *. repeat split; auto.
+  - destruct (Hcur H) as (Hc & Hp). rewrite Hc. f_equal.
+    rewrite firstn_app. replace (Z.to_nat (m_pos m) - length (w_file w))%nat with 0%nat by lia.
+    now rewrite firstn_O, app_nil_r.
+  - destruct (Hcur H); lia.
+  - destruct (Hcur H) as (_ & Hp). rewrite app_length. cbn [length]. lia.
+Qed.
+
+Lemma WInv_deposit : forall w h, WInv w -> sf_step (w_state w) < hit h -> WInv (wr_deposit w h).
+Proof.
+  intros w h (HD & HF & Hv) Hh. unfold WInv, wr_deposit; cbn [w_D w_state w_file w_vis].
+  repeat split.
+  - rewrite HD. now rewrite app_assoc.
+  - apply Forall_app. split; auto.
+  - lia.
+  - rewrite app_length. cbn [length]. lia.
+Qed.
+
+Lemma pinv_step : forall st e, pinv st -> ev_ok (fst st) e = true -> pinv (pstep true true st e).
+Proof.
+  intros [w om] e [HW HM] Hok. cbn [fst snd] in *. destruct e as [h|c|s|s nn| | |]; cbn [pstep ev_ok] in *.
+  - apply Z.ltb_lt in Hok. split; cbn [fst snd]; [apply WInv_deposit|apply MInv_deposit]; auto.
+  - split; cbn [fst snd].
+    + destruct HW as (HD & HF & Hv). unfold WInv, wr_vis; cbn [w_D w_state w_file w_vis]. repeat split; auto; lia.
+    + destruct om as [m|]; [|exact I]. exact HM.
+  - apply andb_true_iff in Hok. destruct Hok as [H1 H2]. apply Z.leb_le in H1. apply forallb_le in H2.
+    split; cbn [fst snd]; [apply (WInv_newstate w s false HW)|].
+    destruct om as [m|]; [|exact I]. apply (MInv_newstate w m s false); auto.
+  - apply andb_true_iff in Hok. destruct Hok as [H1 H2]. apply Z.leb_le in H1. apply forallb_le in H2.
+    split; cbn [fst snd]; [apply (WInv_newstate w s nn HW)|].
+    destruct om as [m|]; [|exact I]. apply (MInv_newstate w m s nn); auto.
+  - split; cbn [fst snd]; auto.
+    destruct (w_reg w) eqn:Hreg.
+    + destruct (share_spec w om HW HM Hreg) as (m & -> & Hc & Hh & _ & Hcont & Hp).
+      apply (MInv_of_share w m); auto. destruct HW as (_ & _ & Hv). lia.
+    + unfold share. rewrite Hreg. exact HM.
+  - split; cbn [fst snd]; auto. destruct om as [m|]; [|exact I]. exact HM.
+  - split; cbn [fst snd]; auto. exact I.
+Qed.
+
+Lemma pinv_run : forall es st, pinv st -> trace_ok true true es st = true -> pinv (prun true true es st).
+Proof.
+  induction es as [|e tl IH]; intros st H Hok; [exact H|].
+  cbn [trace_ok] in Hok. apply andb_true_iff in Hok. destruct Hok as [H1 H2].
+  cbn [prun fold_left]. apply IH; auto. apply pinv_step; auto.
+Qed.
+
+(* at any moment of any trace: what the reader holds for the peer is a prefix of what the peer deposited *)
+Theorem meta_prefix_always : forall es w m, trace_ok true true es pinit = true ->
+  prun true true es pinit = (w, Some m) -> prefix (m_cont m) (w_D w).
+Proof.
+  intros es w m Hok Hrun. pose proof (pinv_run es pinit pinv_init Hok) as H. rewrite Hrun in H.
+  destruct H as [(HD & _) (Hhas & Hk & HSle & Hcur & Hnc)]. cbn [fst snd] in *.
+  rewrite HD. destruct (current_dec w m) as [Hc|Hc].
+  - destruct (Hcur Hc) as (-> & _). apply prefix_app_l, firstn_prefix.
+  - eapply prefix_trans; [apply (Hnc Hc)|apply prefix_app].
+Qed.
+
+Lemma prun_app : forall f1 f2 es1 es2 st, prun f1 f2 (es1 ++ es2) st = prun f1 f2 es2 (prun f1 f2 es1 st).
+Proof. intros. unfold prun. apply fold_left_app. Qed.
+
+Lemma trace_ok_app : forall f1 f2 es1 es2 st, trace_ok f1 f2 (es1 ++ es2) st = true ->
+  trace_ok f1 f2 es1 st = true /\ trace_ok f1 f2 es2 (prun f1 f2 es1 st) = true.
+Proof.
+  intros f1 f2 es1. induction es1 as [|e tl IH]; intros es2 st H; [auto|].
+  cbn [app trace_ok] in H. apply andb_true_iff in H. destruct H as [H1 H2].
+  destruct (IH _ _ H2) as [H3 H4]. cbn [trace_ok prun fold_left]. rewrite H1, H3. auto.
+Qed.
+
+(* right after a replica_share() of the reader: everything of a registered peer that is visible
+   (its state file and the complete records of its hills file) is in the mirror, once and in order,
+   and nothing else than hills of the peer *)
+Theorem meta_share_complete : forall es w om, trace_ok true true (es ++ [RShare]) pinit = true ->
+  prun true true (es ++ [RShare]) pinit = (w, om) -> w_reg w = true ->
+  exists m, om = Some m /\ prefix (visible w) (m_cont m) /\ prefix (m_cont m) (w_D w) /\
+            m_sync m = true.
+Proof.
+  intros es w om Hok Hrun Hreg. rewrite prun_app in Hrun.
+  destruct (trace_ok_app _ _ _ _ _ Hok) as [Hok1 _].
+  pose proof (pinv_run es pinit pinv_init Hok1) as H.
+  destruct (prun true true es pinit) as [w' om'] eqn:E. cbn [prun fold_left pstep] in Hrun.
+  injection Hrun as <- <-. destruct H as [HW HM]. cbn [fst snd] in *.
+  destruct (share_spec w' om' HW HM Hreg) as (m & Hs & Hc & Hh & Hsy & Hcont & Hp).
+  exists m. split; auto. destruct HW as (HD & HF & Hv). repeat split; auto.
+  - unfold visible. rewrite Hcont. apply prefix_app_l. apply firstn_prefix_le. lia.
+  - rewrite Hcont, HD. apply prefix_app_l, firstn_prefix.
+Qed.
+
+(* a (re)read state file replaces whatever the mirror held: the result does not depend on the previous
+   content or read position *)
+Theorem meta_state_replaces : forall w m, w_reg w = true ->
+  (m_sync m = false \/ m_has m = false \/ name_is (m_name m) (w_name w) = false \/
+   (m_S m <> sf_step (w_state w) /\ m_has m = true)) ->
+  exists m', share true true w (Some m) = Some m' /\
+    m_cont m' = sf_hills (w_state w) ++
+                filter (keep (sf_step (w_state w))) (firstn (Z.to_nat (w_vis w)) (w_file w)) /\
+    m_S m' = sf_step (w_state w) /\ m_pos m' = Z.max 0 (w_vis w).
+Proof.
+  intros w m Hreg Hcase. unfold share. rewrite Hreg. cbn [negb].
+  set (m1 := if name_is (m_name m) (w_name w) then m
+             else mkM (Some (w_name w)) false (m_has m) (m_pos m) (m_S m) (m_cont m)).
+  set (m2 := if true && m_has m1 && m_sync m1 && negb (sf_step (w_state w) =? m_S m1)
+             then mkM (m_name m1) false (m_has m1) (m_pos m1) (m_S m1) (m_cont m1) else m1).
+  assert (Hre : negb (m_has m2) || negb (m_sync m2) = true).
+  { unfold m2. destruct (true && m_has m1 && m_sync m1 && negb (sf_step (w_state w) =? m_S m1)) eqn:E.
+    - cbn [m_sync m_has]. apply orb_true_r.
+    - cbn [andb] in E. unfold m1 in *. destruct (name_is (m_name m) (w_name w)) eqn:En.
+      + destruct Hcase as [H|[H|[H|[H1 H2]]]].
+        * rewrite H. apply orb_true_r.
+        * rewrite H. reflexivity.
+        * discriminate.
+        * rewrite H2 in *. cbn [andb negb orb] in *. destruct (m_sync m); cbn [andb negb] in *; auto.
+          apply negb_false_iff, Z.eqb_eq in E. congruence.
+      + cbn [m_sync]. apply orb_true_r. }
+  rewrite Hre. cbn [m_pos m_S m_cont m_name m_sync].
+  destruct (Z.leb_spec 0 (w_vis w)) as [Hv|Hv].
+  - eexists. split; [reflexivity|]. cbn [m_cont m_S m_pos]. repeat split; try lia.
+    f_equal. f_equal. unfold sub. rewrite skipn_O. f_equal. lia.
+  - eexists. split; [reflexivity|]. cbn [m_cont m_S m_pos]. repeat split; try lia.
+    replace (Z.to_nat (w_vis w)) with 0%nat by lia. now rewrite firstn_O, app_nil_r.
+Qed.
+
+(* the writer's own data: nothing the reader does changes what the writer deposited, and the writer's
+   own list only grows by its own deposits *)
+Theorem meta_own_untouched : forall f1 f2 st e,
+  match e with
+  | PDeposit h => w_D (fst (pstep f1 f2 st e)) = w_D (fst st) ++ [h]
+  | _ => w_D (fst (pstep f1 f2 st e)) = w_D (fst st)
+  end.
+Proof. intros f1 f2 [w m] e. destruct e; reflexivity. Qed.
+
+(* ---- the code before the repairs *)
+
+Definition H (i : Z) : hill := mkHill i i.
+
+(* repair 1 missing (both walkers write their state files at the same steps, as with one restart
+   frequency): the peer deposits hills 1,2 (read), writes its state at step 2, deposits 3,4,5;
+   the reader writes its own state, rereads the peer's state file but keeps read position 2 in the new
+   hills file: it gets hill 5 without 3 and 4 *)
+Definition meta_w1 : list pev :=
+  [PSetup 0 false; PDeposit (H 1); PDeposit (H 2); PVis 2; RShare;
+   PWState 2; RWState; PDeposit (H 3); PDeposit (H 4); PDeposit (H 5); PVis 3; RShare].
+
+(* repair 2 missing: the reader does not write state files; the peer writes one at step 2 and
+   deposits 3,4,5: the reader goes on reading the new hills file at the old position *)
+Definition meta_w2 : list pev :=
+  [PSetup 0 false; PDeposit (H 1); PDeposit (H 2); PVis 2; RShare;
+   PWState 2; PDeposit (H 3); PDeposit (H 4); PDeposit (H 5); PVis 3; RShare].
+
+Definition cont_of (st : pstate) : list hill := match snd st with Some m => m_cont m | None => [] end.
+
+Lemma meta_old1_refuted : exists es, trace_ok false false es pinit = true /\
+  prefixb (cont_of (prun false false es pinit)) (w_D (fst (prun false false es pinit))) = false.
+Proof. exists meta_w1. split; vm_compute; reflexivity. Qed.
+
+Lemma meta_old2_refuted : exists es, trace_ok true false es pinit = true /\
+  prefixb (cont_of (prun true false es pinit)) (w_D (fst (prun true false es pinit))) = false.
+Proof. exists meta_w2. split; vm_compute; reflexivity. Qed.
+
+Lemma meta_witnesses_repaired :
+  cont_of (prun true true meta_w1 pinit) = [H 1; H 2; H 3; H 4; H 5] /\
+  cont_of (prun true true meta_w2 pinit) = [H 1; H 2; H 3; H 4; H 5] /\
+  trace_ok true true meta_w1 pinit = true /\ trace_ok true true meta_w2 pinit = true.
+Proof. vm_compute. auto. Qed.
+
+Lemma meta_prefix_both :
+  (forall es w m, trace_ok true true es pinit = true ->
+     prun true true es pinit = (w, Some m) -> prefix (m_cont m) (w_D w)) /\
+  (forall es w om, trace_ok true true (es ++ [RShare]) pinit = true ->
+     prun true true (es ++ [RShare]) pinit = (w, om) -> w_reg w = true ->
+     exists m, om = Some m /\ prefix (visible w) (m_cont m) /\ prefix (m_cont m) (w_D w) /\ m_sync m = true).
+Proof. split; [exact meta_prefix_always|exact meta_share_complete]. Qed.
